@@ -325,6 +325,34 @@ def rule_R9(ctx):
         ctx.violation("ratom_read", "literal run ends before a repetition operator",
                       "in the pattern %r the repeated atom is %s, not the single character before the "
                       "operator: the whole run is repeated" % (bad[0].decode(), bad[1]))
+    # an empty alternative is an alternative: the tree keeps one ALT node per `|`
+    def n_alt(t):
+        c_ = 0
+        st_ = [t]
+        while st_:
+            x_ = st_.pop()
+            if isinstance(x_, dict):
+                if x_.get("rn") == ord("|"):
+                    c_ += 1
+                st_ += [x_.get("c1"), x_.get("c2")]
+        return c_
+    alt_bad = None
+    for pat, want in ((b"(a|)b", 1), (b"(|a)b", 1), (b"a|", 1), (b"a||b", 2), (b"(a|b|)c", 2), (b"a|b", 1)):
+        try:
+            tree, rest, err = _parse_probe(prog, pat)
+        except (Unsupported, OverRead) as e:
+            alt_bad = "skip"
+            ctx.inconclusive("rnode_parse", "empty alternatives are kept", "parser not evaluable on %r: %s" % (pat, e))
+            break
+        got = n_alt(tree) if isinstance(tree, dict) else -1
+        if got != want and alt_bad is None:
+            alt_bad = (pat, got, want)
+    if alt_bad is None:
+        ctx.ok("rnode_parse", "one alternation node per `|`, also for an empty first or last alternative")
+    elif alt_bad != "skip":
+        ctx.violation("rnode_parse", "empty alternatives are kept",
+                      "the pattern %r is parsed with %d alternation(s) instead of %d: an empty alternative is "
+                      "dropped, so (a|)b does not match `b`" % (alt_bad[0].decode(), alt_bad[1], alt_bad[2]))
     # brk_match evaluates a named class with the caller's flags
     bm = prog.func("brk_match", file="regex.c")
     flg = bm.params[2]["name"]
